@@ -3,7 +3,7 @@
 // This source code is licensed under the MIT license found in the
 // LICENSE file in the root directory of this source tree.
 
-use alloc::vec::Vec;
+use alloc::{string::ToString, vec::Vec};
 
 use crypto::ElementHasher;
 use math::FieldElement;
@@ -153,7 +153,14 @@ impl OodFrame {
         };
 
         // if there is a Lagrange kernel, we treat its associated entries separately above
-        let aux_trace_width = aux_trace_width - (lagrange_kernel_frame.is_some() as usize);
+        let aux_trace_width = aux_trace_width
+            .checked_sub(lagrange_kernel_frame.is_some() as usize)
+            .ok_or_else(|| {
+                DeserializationError::InvalidValue(
+                    "Lagrange kernel frame provided for a trace without an auxiliary segment"
+                        .to_string(),
+                )
+            })?;
 
         // parse main and auxiliary trace evaluation frames. This does the reverse operation done in
         // `set_trace_states()`.
